@@ -58,6 +58,34 @@ pub(crate) mod c20s;
 
 use vcore::{BatchPlan, Check};
 
+/// The daemon's global lock in the simulator build: `tokio::sync::RwLock<Global>` behind a wrapper
+/// whose `read()` / `write()` are scheduling points. On the single-threaded simulated runtime a task
+/// runs from one await to the next without interruption, so two statements that follow a lock
+/// acquisition that did not have to wait are atomic - which they are not on the daemon's
+/// multi-threaded runtime, where another task may run on another core right after this one got the
+/// lock (a second reader next to a reader; anybody not needing the lock next to a writer). When the
+/// run's schedule says so (`verif_net::set_yield_rate`, off by default, drawn from the run's own
+/// PRNG), the task yields once after the acquisition, still holding the guard: every other runnable
+/// task gets a turn first. Every execution produced this way is one the real runtime can produce.
+#[derive(Clone)]
+pub(crate) struct GlobalHandle(Arc<tokio::sync::RwLock<Global>>);
+
+impl GlobalHandle {
+    pub(crate) fn new(g: Global) -> GlobalHandle {
+        GlobalHandle(Arc::new(tokio::sync::RwLock::new(g)))
+    }
+    pub(crate) async fn read(&self) -> tokio::sync::RwLockReadGuard<'_, Global> {
+        let g = self.0.read().await;
+        crate::verif_net::sched_point(1).await;
+        g
+    }
+    pub(crate) async fn write(&self) -> tokio::sync::RwLockWriteGuard<'_, Global> {
+        let g = self.0.write().await;
+        crate::verif_net::sched_point(2).await;
+        g
+    }
+}
+
 /// Guarded replacement of `event::enable_active_connect`: the same retry loop, connecting through
 /// the simulated transport instead of a kernel socket.
 pub(crate) fn enable_active_connect(peer: &mut Peer, ch: mpsc::UnboundedSender<TcpStream>) {
@@ -117,7 +145,8 @@ pub(crate) fn verif_main(args: &[String]) -> i32 {
     let c01r = c01_rtc::RtcConvergence;
     let c10 = c10::GrHelper;
     let c13 = c13::RtrClient;
-    let c07 = c07::FsmWire;
+    let c07 = c07::FsmWire { prop: "C07" };
+    let c07s = c07::FsmWire { prop: "C18" };
     let c07b = c07::SilenceInEveryState;
     let c16 = c16::Admission;
     let c09 = c09::ExportRules;
@@ -131,6 +160,6 @@ pub(crate) fn verif_main(args: &[String]) -> i32 {
     let c19 = c18::Monitoring { prop: "C19" };
     let c04 = c04::BulkExport;
     let c19m = c19_mrt::MrtDumps;
-    let checks: Vec<&dyn Check> = vec![&c08, &c01, &c01r, &c10, &c13, &c07, &c07b, &c16, &c09, &c05, &c11, &c15s, &c20, &c20v, &c18, &c18w, &c19, &c19m, &c04];
+    let checks: Vec<&dyn Check> = vec![&c08, &c01, &c01r, &c10, &c13, &c07, &c07b, &c16, &c09, &c05, &c11, &c15s, &c20, &c20v, &c18, &c18w, &c07s, &c19, &c19m, &c04];
     vcore::main_with(&checks, &plan, args)
 }
